@@ -40,6 +40,8 @@ type World struct {
 	catalog *Catalog
 	raise   *Raise
 	tkai    *TKAI
+	value   *Value
+	deref   *Deref
 	recording, mayRecord map[*ssa.Function]bool
 }
 
